@@ -16,6 +16,19 @@ EXTRA = {
     'Variable': lambda c: A.Variable('v', is_system_var=c.opt()),
     'Star': lambda c: A.Star(),
     'NullConstant': lambda c: A.NullConstant(),
+    # node kinds no parser produces alone or that hold plain Python containers (rows of an already fetched result, option dictionaries, raw text)
+    'Data': lambda c: A.Data([{'a': 1, 'b': [1, 2]}, {'a': 2, 'b': []}][:1 + c.opt()], alias=A.Identifier(parts=['al']) if c.opt() else None),
+    'NativeQuery': lambda c: A.NativeQuery(integration=A.Identifier(parts=['int1']), query='select 1', alias=A.Identifier(parts=['al']) if c.opt() else None),
+    'Object': lambda c: A.Object('T', {'k': [1, 2], 'n': {'m': 1}} if c.opt() else {'k': 1}),
+    'Interval': lambda c: A.Interval('2 day' if c.opt() else '3 month'),
+    'Last': lambda c: A.Last(),
+    'Latest': lambda c: A.Latest(),
+    'Show': lambda c: A.Show(category='tables', from_table=A.Identifier(parts=['db']) if c.opt() else None, where=c.e() if c.opt() else None),
+    'Describe': lambda c: A.Describe(value=A.Identifier(parts=['t', 'x'][:1 + c.opt()])),
+    'Use': lambda c: A.Use(value=A.Identifier(parts=['db'])),
+    'Set': lambda c: A.Set(name=A.Identifier(parts=['x']), value=c.e()),
+    'DropTables': lambda c: A.DropTables(tables=[A.Identifier(parts=['t']), A.Identifier(parts=['u'])][:1 + c.opt()], if_exists=bool(c.opt())),
+    'Explain': lambda c: A.Explain(target=A.Identifier(parts=['t'])),
 }
 ALL = dict(BUILDERS)
 ALL.update(EXTRA)
@@ -171,7 +184,10 @@ def _copy_concrete(cls, full, n1, n2, mut, deep):
             return []       # the pre-mutation did not yield a printable tree: not an input
         raise
     tag = (' [original prepared with %s]' % pre) if pre else ''
-    cp = _copy.deepcopy(node) if deep else node.copy()
+    try:
+        cp = _copy.deepcopy(node) if deep else node.copy()
+    except Exception as e:  # noqa
+        return ['%s raises %s for a tree that prints%s' % ('deepcopy' if deep else 'copy()', type(e).__name__, tag)]
     problems = []
     if type(cp) is not type(node):
         return ['copy has another type' + tag]
